@@ -9,7 +9,7 @@ PROOF_MODULE = "Nlmodel.Proofs.C11"
 PROOF_FILES = ["Nlmodel/Proofs/C11.lean", "Nlmodel/Proofs/Lemmas/EmitSize.lean", "Nlmodel/Model/Compiler.lean", "Nlmodel/Spec/Eval.lean"]
 THEOREM_FILE = PROOF_FILES[0]
 LEVEL_TEXT = ("Lean theorems: (code generation) the emitted code of every expression, statement and block has its static size for every position, loop context and constant pool, hence the jump targets of `als` are the first instruction of the else-code and the first instruction after the expression, those of `zolang` are the loop head and the loop exit, `stop`/`volgende` jump to exit/head of the INNERMOST loop, function bodies are compiled without an inherited loop and `antwoord` outside a function is rejected; (definitional semantics) exactly one branch of an `als` runs and a non-boolean condition runs none, a loop ends when the condition is `nee`, `stop` completes the innermost loop with null, `volgende` restarts it; (machine, C11_no_residue - instance of the forward simulation of C01 stages 3/4) an `als`/`zolang` expression of the fragment (scalars, global and local variables, calls, `stop`/`volgende` where no operand is pending) started on ANY operand stack ends at the end of its code with exactly its value pushed and nothing else, `stop`/`volgende` arrive at the exit/head of the innermost loop with exactly `null` pushed on the stack the loop body started with, for any number of iterations; K3 is proved as a kernel-checked counterexample (C11_K3_witness). Tied to compiler.rs/vm.rs by real eval vs definitional evaluator on a complete enumeration of a template set (if-chains x loops x blocks x early exits, every placement of stop/volgende/antwoord, if/while as statements and as values), loops run 0, 1, 2 and 70 000 times, and a residue probe on the real VM (operand-stack height at every loop head and at Halt). No residue inside function bodies: C11_no_residue_in_function_bodies (instance of the stage-4 simulation): in any activation with any suspended callers an expression leaves exactly its value on the operand stack, loops left by stop/volgende/antwoord included.")
-LEVEL_NOTE = ("Trusted: Lean kernel; the machine-level 'no residue' theorem covers the scalar/function fragment (C11_no_residue, C11_no_residue_in_function_bodies) AND, since stage 6 of the C01 simulation, expressions, loops and bodies that allocate, call allocating functions and collect (C11_no_residue_with_heap_values_and_calls); only nested function literals and K3 shapes are outside, decided there by the residue probe (hook) and the lockstep correspondence. Known finding K3: stop/volgende evaluated under pending operands leave those operands on the stack; when such a loop is itself a later operand (array element, right operand, argument) the enclosing operator consumes the residue instead of the earlier operand, so the VALUE is wrong (`[5, zolang ja { 1 + als ja { stop } }]` gives [1, null] instead of [5, null]).")
+LEVEL_NOTE = ("Trusted: Lean kernel; the machine-level 'no residue' theorem covers the scalar/function fragment (C11_no_residue, C11_no_residue_in_function_bodies) AND, since stage 6 of the C01 simulation, expressions, loops and bodies that allocate, call allocating functions and collect (C11_no_residue_with_heap_values_and_calls); only K3 shapes (and the few shapes outside stage 7 of C01) are outside, decided there by the residue probe (hook) and the lockstep correspondence. Known finding K3: stop/volgende evaluated under pending operands leave those operands on the stack; when such a loop is itself a later operand (array element, right operand, argument) the enclosing operator consumes the residue instead of the earlier operand, so the VALUE is wrong (`[5, zolang ja { 1 + als ja { stop } }]` gives [1, null] instead of [5, null]).")
 TECHNIQUE = "Lean 4 proof (static sizes => jump targets; structural semantics of control flow; machine-level no-residue by forward simulation) + template enumeration with residue probe"
 RULE = ("complete enumeration of templates: if-chains (1-3 arms, with/without else) x loop bodies x exits (stop, volgende, antwoord, none) at "
         "every depth <= 3, as statement and as value, inside and outside functions; loops of 0, 1, 2, 5 and 70 000 iterations; random "
